@@ -7,7 +7,47 @@ fn v(n: &str) -> Exp { Exp::Variable(n.into()) }
 fn k(x: f64) -> Exp { Exp::Number(x) }
 fn d(n: &str, ty: VariableType) -> VarDecl { VarDecl { name: n.into(), ty } }
 
+fn bx(e: Exp) -> Box<Exp> { Box::new(e) }
+
+/// C01 (fixed 46b0121): `min y s.t. y >= max{10, e}; x <= 1; x >= 0` where `e` is dominated by 10 and has no value
+/// at any assignment — `linearize_extreme` used to prune `e` without lowering it, so its error was never reported.
+/// Model and implementation must both reject these.
+fn pruned_undefined(e: Exp) -> Model {
+    let free = || VariableType::Real(f64::NEG_INFINITY, f64::INFINITY);
+    build(OptimizationType::Min, v("y"),
+        vec![Constraint::new(v("y"), Comparison::GreaterOrEqual, Exp::Max(vec![k(10.0), e]), "c".into()),
+             Constraint::new(v("x"), Comparison::LessOrEqual, k(1.0), "u".into()),
+             Constraint::new(v("x"), Comparison::GreaterOrEqual, k(0.0), "l".into())],
+        &[d("x", free()), d("y", free())])
+}
+
 pub fn models() -> Vec<Model> {
+    let xdiv0 = || Exp::BinOp(BinOp::Div, bx(v("x")), bx(k(0.0)));
+    let mut out = models_base();
+    out.push(pruned_undefined(Exp::Min(vec![v("x"), xdiv0()])));
+    out.push(pruned_undefined(Exp::BinOp(BinOp::Mul, bx(k(0.0)), bx(xdiv0()))));
+    out.push(pruned_undefined(Exp::Min(vec![v("x"), Exp::BinOp(BinOp::Div, bx(k(1.0)), bx(k(0.0)))])));
+    out.push(pruned_undefined(Exp::BinOp(BinOp::Add, bx(Exp::BinOp(BinOp::Mul, bx(xdiv0()), bx(k(0.0)))), bx(v("x")))));
+    // C01 (fixed ba14904): a logic value that has no value, compared with a literal that decides the comparison
+    out.push(verdict_undefined(Exp::And(vec![v("b"), xdiv0()]), Comparison::LessOrEqual, k(1.0)));
+    out.push(verdict_undefined(Exp::And(vec![v("b"), Exp::Max(vec![])]), Comparison::LessOrEqual, k(1.0)));
+    out.push(verdict_undefined(k(5.0), Comparison::GreaterOrEqual, Exp::Or(vec![v("b"), xdiv0()])));
+    out.push(verdict_undefined(Exp::And(vec![v("b"), xdiv0()]), Comparison::GreaterOrEqual, k(2.0)));
+    out
+}
+
+/// C01 (fixed ba14904): `min x s.t. c: <logic value> cmp <literal>; x >= 0` where the literal alone decides the
+/// comparison (Tautology / Contradiction) and the logic value has no value at any assignment —
+/// `try_normalize_logic_constraint` used to drop (or replace by `0 = 1`) the constraint without lowering the logic
+/// value, so its error was never reported. Model and implementation must both reject these.
+fn verdict_undefined(lhs: Exp, cmp: Comparison, rhs: Exp) -> Model {
+    build(OptimizationType::Min, v("x"),
+        vec![Constraint::new(lhs, cmp, rhs, "c".into()),
+             Constraint::new(v("x"), Comparison::GreaterOrEqual, k(0.0), "l".into())],
+        &[d("x", VariableType::Real(f64::NEG_INFINITY, f64::INFINITY)), d("b", VariableType::Boolean)])
+}
+
+fn models_base() -> Vec<Model> {
     vec![
         // C01: derived range [0,0.5] of a Boolean feeds operand pruning but is never enforced
         build(OptimizationType::Max, v("x"),
@@ -58,4 +98,18 @@ pub fn models() -> Vec<Model> {
                  Constraint::new(v("x"), Comparison::LessOrEqual, k(6.0), "a".into())],
             &[d("x", VariableType::Real(-3.0, 30.0))]),
     ]
+}
+
+#[cfg(test)]
+mod tests {
+    /// the four inputs of finding C01-prune-undefined-operand (46b0121) and the four of
+    /// C01-logic-verdict-undefined-operand (ba14904) are rejected by the implementation
+    #[test]
+    fn pruned_undefined_operands_are_rejected() {
+        let all = super::models();
+        let n = all.len();
+        for m in &all[n - 8..] {
+            assert!(rooc::Linearizer::linearize(m.clone()).is_err(), "compiled: {}", m);
+        }
+    }
 }
